@@ -193,6 +193,7 @@ struct Plan {
     // expectation for replays
     std::string expect_class;
     uint64_t expect_hash = 0;
+    uint32_t call_us = 0;        // API walks: virtual time a logging call of the port takes (0 = none): the clock moves while the core runs, as on a real port
     std::string abi;             // build variant the plan was found under ("" = host default, "uchar" = plain char unsigned as on ARM/Xtensa); selects the build for a replay
 };
 std::string plan_to_text(const Plan &p);
@@ -320,7 +321,7 @@ struct World {
     Node *cur = nullptr;
     Delivery *curd = nullptr;
     TickRec *curt = nullptr;
-    uint64_t handling_base = 0, sleep_accum = 0;
+    uint64_t handling_base = 0, sleep_accum = 0, cost_us = 0;
     int in_tick = 0;
     uint64_t alloc_index = 0, send_index = 0;
     int64_t allocfail_k = 0, allocfail_n = 0; uint64_t sendfail_mask = 0; uint32_t getfail_mask = 0;
